@@ -14,8 +14,10 @@ PARALLEL = True
 RULE = ('sorter cases: sequences of <=10 add/remove calls on a TopologicalSorter (three constructor flavours: '
         'predicate list, tweens, derivers) over <=8 names + sentinels + absent names, constraints None/name/sentinel/'
         'list of alternatives, sorted() observed after every call; all insertion orders of small declaration sets; '
-        'configurator cases: add_tween (with/without pyramid.tweens), add_view_deriver, add_view_predicate with random '
-        'hints and a real request through instrumented tweens/derivers. non-trivial = some observed step is an error '
+        'configurator cases: add_tween HISTORIES (adds/re-adds interleaved with implicit() and requests through freshly '
+        'made apps, with/without pyramid.tweens, autocommit or commit after each add), add_view_deriver, and '
+        'add_view/route/subscriber_predicate with weighs_more_than/weighs_less_than hints, with a real request through '
+        'instrumented tweens/derivers/predicates. non-trivial = some observed step is an error '
         'or an order of >=2 names with at least one constraint between present names; distinct by full case')
 ASSUMPTIONS = [
     'names and constraint targets are str; the Sentinel objects FIRST/LAST are compared by identity (no __eq__) and are '
